@@ -44,24 +44,37 @@ theorem C13_switch_update_same_branch (ds : DistSem) (ps : List Prog) (i : In) (
     obtain ⟨r', h4, rfl⟩ := h2
     exact ⟨ba, r', hsa, by simpa [hch] using h4, rfl, rfl, rfl⟩
 
-/-- The index is taken from the first argument; branch `k` receives the `k`-th argument tuple. -/
+/-- The index is taken from the first argument and CLAMPED to the branches; branch `k` receives the
+    `k`-th argument tuple. -/
 theorem C13_switch_args (n : Nat) (idxv : Int) (bargs : List Val) (k : Nat) (a : Val)
     (h : switchArgs n (.tup (.int idxv :: bargs)) = .ok (k, a)) :
-    (0 ≤ idxv ∧ idxv < n) ∧ k = idxv.toNat ∧ bargs[k]? = some a := by
+    k = clampIdx n idxv ∧ bargs[k]? = some a := by
   simp only [switchArgs] at h
   by_cases hl : bargs.length = n
-  · by_cases hr : idxv < 0 ∨ idxv ≥ n
-    · simp [hl, hr] at h
-    · simp only [hl, hr, ne_eq, not_true_eq_false, if_false] at h
-      cases hx : bargs[idxv.toNat]? with
-      | none => simp [hx] at h
-      | some x =>
-        simp [hx] at h
-        obtain ⟨rfl, rfl⟩ := h
-        refine ⟨?_, rfl, hx⟩
-        simp only [not_or, Int.not_lt, ge_iff_le, Int.not_le] at hr
-        omega
+  · simp only [hl, ne_eq, not_true_eq_false, if_false] at h
+    cases hx : bargs[clampIdx n idxv]? with
+    | none => simp [hx] at h
+    | some x =>
+      simp [hx] at h
+      obtain ⟨rfl, rfl⟩ := h
+      exact ⟨rfl, hx⟩
   · simp [hl] at h
+
+/-- Clamping: in range the index is itself, below range branch 0, above range the last branch. -/
+theorem C13_clamp (n : Nat) (idxv : Int) (hn : 0 < n) :
+    clampIdx n idxv < n ∧
+    (0 ≤ idxv ∧ idxv < n → (clampIdx n idxv : Int) = idxv) ∧
+    (idxv < 0 → clampIdx n idxv = 0) ∧ (idxv ≥ n → clampIdx n idxv = n - 1) := by
+  unfold clampIdx
+  refine ⟨?_, ?_, ?_, ?_⟩
+  · split
+    · exact hn
+    · split
+      · omega
+      · omega
+  · intro h; simp [show ¬ idxv < 0 by omega, show ¬ idxv ≥ n by omega]; omega
+  · intro h; simp [h]
+  · intro h; simp [show ¬ idxv < 0 by omega, h]
 
 /-- `or_else(p, q)` is `switch(p, q)` on the index `int(not flag)`: flag true runs the if-branch,
     flag false the else-branch (this is how the library defines it). -/
@@ -72,12 +85,5 @@ theorem C13_orElse_index (b : Int) (ia ea : Val) :
     Pre.apply (.exprs [.notb (.var 0), .var 1, .var 2]) [.int b, ia, ea] =
       .ok [.int (if b = 0 then 1 else 0), ia, ea] := by
   by_cases hb : b = 0 <;> simp [Pre.apply, Expr.evalL, Expr.eval, Val.ofBool, hb, bind, Except.bind, pure, Except.pure]
-
-/-- Out-of-range indices are outside the model (`Err.oob`): the documentation promises clamping;
-    what the implementation does there is compared by the harness against that promise. -/
-theorem C13_out_of_range_not_modelled (n : Nat) (idxv : Int) (bargs : List Val) (hl : bargs.length = n)
-    (h : idxv < 0 ∨ idxv ≥ n) : switchArgs n (.tup (.int idxv :: bargs)) = .error .oob := by
-  unfold switchArgs
-  simp [hl, h]
 
 end GenjaxVerif.GFI
